@@ -8,11 +8,11 @@ SPEC = {
     "agrees": "C15.agrees",
     "in_domain": "C15.in_domain",
     "model_prop": "fun k => implb (C15.in_domain k) (C15.model_preserved k)",
-    "n_quick": 100,
+    "n_quick": 80,
     "n_thorough": 3000,
-    "shard": 8,
+    "shard": 6,
     "rule": "see harness/props/c15.go: timeframes 1Min..1D (35% forced 1D), 25% variable, 0-8 columns over the 12 fixed-width types, 40% clean; "
-            "otherwise boundary/long/NUL-edged/empty/multi-byte names, 7% 57-64 string16 columns, 3% 1021-1027 columns, descriptions around "
+            "otherwise boundary/long/NUL-edged/empty/multi-byte names, (thorough tier only: 7% 57-64 string16 columns, 3% 1021-1027 columns; the quick tier keeps their boundary cases as corpus files), descriptions around "
             "256 bytes; 0-4 single-record writes through the real writer + WAL flush, 30% on Jan 1; distinct = distinct input; non-trivial = "
             "inside the theorem's guard with >=2 elements and >=1 write",
     "trusted_base": [
